@@ -164,6 +164,7 @@ def run(ctx):
     ]
     from checks import reqfamily as _rf
     _rf.override_stage(ctx, 'C03', ctx.tier == "thorough")
+    _rf.concurrent_replies_stage(ctx, 'C03', ctx.tier == "thorough")
     ctx.write_evidence("exploration", {
         "evaluations": executed,
         "distinct_nontrivial": len(pairs),
